@@ -2227,11 +2227,206 @@ def probe_chains(rng, tier, out):
                                'real/complex counterparts of %s (%s): dtypes follow the NumPy real/complex pairing' % (name, kind), rp))
 
 
+
+# --------------------------------------------------------------------- ndarray attributes entering __eq__/__hash__
+_AV_SRC = r"""
+import numpy as np, odl, warnings
+warnings.simplefilter('ignore')
+from odl.space.npy_tensors import NumpyTensorSpaceArrayWeighting as NA
+from odl.space.pspace import ProductSpaceArrayWeighting as PA
+from odl.space.weighting import MatrixWeighting
+
+def variants(shape):
+    # name -> array of the given shape: the same memory seen in different ways, copies, other memory
+    n = int(np.prod(shape))
+    nd = len(shape)
+    B = (np.arange(8 * n * 2, dtype=float) % 7 + 1.0)
+    if nd == 1:
+        base = B[:n]
+        out = {'same': base, 'copy': base.copy(), 'strided': B[::2][:n], 'shifted': B[1:n + 1],
+               'reversed': base[::-1], 'fullview': base[:],
+               'bytes_as_int': base.view(np.int64), 'broadcast': np.broadcast_to(B[0], (n,)),
+               'equal_other_memory': np.array(base.tolist()), 'same_values_int': base.astype(np.int64)}
+    else:
+        A = B[:4 * n].reshape((2 * shape[0], 2 * shape[1]))
+        base = A[:shape[0], :shape[1]]
+        out = {'same': base, 'copy': base.copy(), 'strided': A[::2, ::2], 'shifted': A[1:shape[0] + 1, :shape[1]],
+               'reversed': base[::-1, ::-1], 'fullview': base[:, :], 'transposed': A[:shape[1], :shape[0]].T,
+               'broadcast': np.broadcast_to(A[0, :shape[1]], shape), 'equal_other_memory': np.array(base.tolist()),
+               'same_values_int': base.astype(np.int64)}
+    ro = base[...]
+    ro.flags.writeable = False
+    out['readonly'] = ro
+    return out
+
+def make(kind, arr):
+    if kind == 'NA':
+        return NA(arr)
+    if kind == 'PA':
+        return PA(arr)
+    if kind == 'matrix':
+        return MatrixWeighting(arr, impl='numpy')
+    if kind == 'tensor':
+        return odl.rn(arr.shape, weighting=arr)
+    if kind == 'tensor-NAobj':
+        return odl.rn(arr.shape, weighting=NA(arr))
+    if kind == 'cn':
+        return odl.cn(arr.shape, weighting=arr)
+    if kind == 'discr':
+        part = odl.uniform_partition([0.0] * arr.ndim, [1.0] * arr.ndim, arr.shape)
+        return odl.DiscretizedSpace(part, odl.rn(arr.shape, weighting=arr))
+    if kind == 'prod':
+        return odl.ProductSpace(odl.rn(2), len(arr), weighting=arr)
+    if kind == 'prod-of-weighted':
+        return odl.ProductSpace(odl.rn(arr.shape, weighting=arr), 2)
+    raise ValueError(kind)
+
+def indexed_spaces():
+    # spaces of elements obtained by indexing elements of array-weighted spaces
+    W = np.array([1.0, 2.0, 3.0, 4.0, 5.0, 6.0])
+    x = odl.rn(6, weighting=W).one()
+    out = {'x[:3]': x[:3].space, 'x[:3] again': x[:3].space, 'x[::2]': x[::2].space, 'x[[0,2,4]]': x[[0, 2, 4]].space,
+           'x[1:4]': x[1:4].space, 'x[2::-1]': x[2::-1].space, 'x[:3][:]': x[:3][:].space}
+    y = odl.uniform_discr(0, 1, 6, weighting=W).one()
+    out.update({'y[:3]': y[:3].space, 'y[::2]': y[::2].space})
+    A = np.arange(16, dtype=float).reshape(4, 4) + 1
+    z = odl.rn((4, 4), weighting=A).one()
+    out.update({'z[:2,:2]': z[:2, :2].space, 'z[::2,::2]': z[::2, ::2].space, 'z[:2,:2] again': z[:2, :2].space})
+    return out
+
+def test_value(o):
+    # a number that equal objects must share: the norm of a fixed test vector
+    if isinstance(o, odl.ProductSpace):
+        el = o.element([np.arange(1, sp.size + 1, dtype=float).reshape(sp.shape) for sp in o.spaces])
+        return float(el.norm())
+    if isinstance(o, odl.space.base_tensors.TensorSpace):
+        return float(o.element(np.arange(1, o.size + 1, dtype=float).reshape(o.shape)).norm())
+    return None
+
+def eqo(a, b):
+    try:
+        return bool(a == b)
+    except Exception:
+        return 'raises'
+
+def hsh(a):
+    try:
+        return hash(a)
+    except Exception:
+        return 'raises'
+
+def laws(objs):
+    # objs: name -> object.  Returns the list of violated laws with witnesses.
+    names = list(objs)
+    E = {(i, j): eqo(objs[i], objs[j]) for i in names for j in names}
+    bad = []
+    for i in names:
+        if E[i, i] is not True:
+            bad.append(('refl', i))
+        for j in names:
+            if E[i, j] == 'raises':
+                bad.append(('raises', i, j))
+            if E[i, j] != E[j, i]:
+                bad.append(('sym', i, j))
+            if E[i, j] is True:
+                if hsh(objs[i]) != hsh(objs[j]):
+                    bad.append(('hash', i, j))
+                vi, vj = test_value(objs[i]), test_value(objs[j])
+                if vi is not None and not (vi == vj):
+                    bad.append(('norm', i, j, vi, vj))
+                if hsh(objs[i]) != 'raises' and len({objs[i], objs[j]}) != 1:
+                    bad.append(('setkey', i, j))
+            for k in names:
+                if E[i, j] is True and E[j, k] is True and E[i, k] is not True:
+                    bad.append(('trans', i, j, k))
+            a, b = objs[i], objs[j]
+            if isinstance(a, odl.set.space.LinearSpace) and isinstance(b, odl.set.space.LinearSpace):
+                try:
+                    if (a.element() in b) != (E[i, j] is True):
+                        bad.append(('membership', i, j))
+                except Exception:
+                    bad.append(('membership-raises', i, j))
+    return bad
+"""
+
+
+def probe_array_views(rng, tier, out):
+    """Every ndarray that enters an __eq__/__hash__ (weighting arrays and matrices; grids and interval
+    products copy their input) offered as: the same object, copies, views of the same memory with other
+    strides / offset / order / dtype / stride 0 / read-only; on weightings, tensor, discretized and
+    product spaces, and on the spaces of indexed elements.  == must be an equivalence, imply equal
+    hashes, one set/dict key, the same norm of a test vector, and agree with membership."""
+    kinds = [('NA', (3,)), ('NA', (2, 2)), ('PA', (3,)), ('matrix', (2, 2)), ('tensor', (3,)), ('tensor', (2, 2)),
+             ('tensor-NAobj', (3,)), ('cn', (2,)), ('discr', (3,)), ('discr', (2, 2)), ('prod', (3,)),
+             ('prod-of-weighted', (2,)), ('tensor', (1,)), ('NA', (4,))]
+    for kind, shape in kinds:
+        rp = _AV_SRC + ("\nobjs = {}\nfor name, arr in variants(%r).items():\n    try:\n        objs[name] = make(%r, arr)\n"
+                        "    except Exception:\n        pass\nobserved = laws(objs); ok = not observed\n" % (shape, kind))
+        e2 = {}
+        try:
+            exec(rp, e2)
+            bad = e2['observed']
+        except Exception as ex:
+            bad = [('probe-raised', repr(ex))]
+        viol = sorted({b[0] for b in bad})
+        for law in (viol or [None]):
+            out.append(C.Probe(law is None, 'array-views-%s-%s' % (kind, law or 'ok'),
+                               '%s over views/copies of one buffer, shape %s: ==, hash, set key, norm, membership coherent'
+                               % (kind, shape), rp, detail=bad[:6]))
+    rp = _AV_SRC + "\nobserved = laws(indexed_spaces()); ok = not observed\n"
+    e2 = {}
+    try:
+        exec(rp, e2)
+        bad = e2['observed']
+    except Exception as ex:
+        bad = [('probe-raised', repr(ex))]
+    viol = sorted({b[0] for b in bad})
+    for law in (viol or [None]):
+        out.append(C.Probe(law is None, 'array-views-indexed-elements-%s' % (law or 'ok'),
+                           'spaces of x[:k], x[::2], x[[0,2,4]], ... of array-weighted spaces: ==, hash, norm, membership coherent',
+                           rp, detail=bad[:6]))
+    # grids / interval products / partitions copy their coordinate arrays: by-value equality
+    rp = ("import numpy as np, odl\nB = np.arange(12, dtype=float)\n"
+          "vs = {'same': B[:3], 'copy': B[:3].copy(), 'strided': B[::2][:3], 'shifted': B[1:4], 'asint': B[:3].astype(int), 'list': [0.0, 1.0, 2.0]}\n"
+          "ok = True; observed = []\n"
+          "for mk in (lambda v: odl.RectGrid(v), lambda v: odl.IntervalProd(v, np.asarray(v, dtype=float) + 20), lambda v: odl.RectPartition(odl.IntervalProd(-1, 30), odl.RectGrid(v))):\n"
+          "    objs = {k: mk(v) for k, v in vs.items()}\n"
+          "    for i in objs:\n        for j in objs:\n"
+          "            want = bool(np.array_equal(np.asarray(vs[i], dtype=float), np.asarray(vs[j], dtype=float)))\n"
+          "            got = (objs[i] == objs[j]); h = (hash(objs[i]) == hash(objs[j]))\n"
+          "            if got != want or (got and not h):\n                ok = False; observed.append((i, j, got, want, h))\n")
+    e2 = {}
+    try:
+        exec(rp, e2)
+        ok = bool(e2['ok'])
+    except Exception:
+        ok = False
+    out.append(C.Probe(ok, 'array-views-grid-intv-partition', 'coordinate arrays given as views/copies/lists: equality by value, equal hashes', rp))
+
+
+def search(rng, broken):
+    """Called when the translator, a proof or the correspondence broke and no probe has failed yet:
+    the property oracles at thorough intensity; the first failing input that is not a listed finding."""
+    known = C.load_findings(PID)
+    for fam in (probe_array_views, probe_near, probe_laws, probe_membership, probe_chains, probe_element,
+                probe_derived, probe_indexing):
+        out = []
+        try:
+            fam(C.rng_for(PID, 12345), 'thorough', out)
+        except Exception:
+            continue
+        for p in out:
+            if not p.ok and p.key not in known:
+                return p
+    return None
+
+
 def probes(rng, tier):
     import warnings
     warnings.simplefilter('ignore')
     out = []
     probe_laws(rng, tier, out)
+    probe_array_views(rng, tier, out)
     probe_near(rng, tier, out)
     probe_membership(rng, tier, out)
     probe_element(rng, tier, out)
